@@ -494,11 +494,78 @@ h_name(const char *pfx, const char *fn, const char *sfx, const char *var) {
 	return (s);
 }
 
+/* The model counters are printed as deltas whenever a group of cases is done, so that what was
+ * measured survives a shard that dies later (the driver sums STAT lines). */
+static uint64_t h_states_printed = 0, h_transitions_printed = 0;
+
 static inline void
-h_finish_model(int states_from_this_process) {
-	if (states_from_this_process)
-		printf("STAT\t_model\tstates\t%llu\n", (unsigned long long)h_states);
-	printf("STAT\t_model\ttransitions\t%llu\n", (unsigned long long)h_transitions);
+h_flush_model(int states_from_this_process) {
+	if (states_from_this_process && h_states != h_states_printed) {
+		printf("STAT\t_model\tstates\t%llu\n", (unsigned long long)(h_states - h_states_printed));
+		h_states_printed = h_states;
+	}
+	if (h_transitions != h_transitions_printed) {
+		printf("STAT\t_model\ttransitions\t%llu\n", (unsigned long long)(h_transitions - h_transitions_printed));
+		h_transitions_printed = h_transitions;
+	}
+	fflush(stdout);
 }
+
+
+/* ------------------------------------------------------------------ crash containment
+ * A fault inside a case (typically an aligned SIMD load on an unaligned source) must be ONE finding
+ * of that case, not the death of the shard: the handlers below replace ASan's, and H_GUARDED()
+ * runs a case body under sigsetjmp.  Best effort: after a wild write the process may be beyond
+ * repair, then the driver's crash/hang attribution takes over. */
+#include <setjmp.h>
+#include <signal.h>
+static sigjmp_buf h_jmp;
+static volatile sig_atomic_t h_jmp_armed = 0;
+static uint64_t h_crashes = 0;
+
+static void
+h_on_signal(int sig) {
+	if (h_jmp_armed) {
+		h_jmp_armed = 0;
+		siglongjmp(h_jmp, sig);
+	}
+	signal(sig, SIG_DFL);
+	raise(sig);
+}
+
+static inline void
+h_install_handlers(void) {
+	static const int sigs[] = { SIGSEGV, SIGBUS, SIGILL, SIGFPE };
+	struct sigaction sa;
+	size_t i;
+
+	memset(&sa, 0, sizeof(sa));
+	sa.sa_handler = h_on_signal;
+	sigemptyset(&sa.sa_mask);
+	sa.sa_flags = SA_NODEFER | SA_ONSTACK;
+	for (i = 0; i < sizeof(sigs) / sizeof(sigs[0]); i ++)
+		sigaction(sigs[i], &sa, NULL);
+}
+
+/* Runs `call` (a function call that returns non-zero when the case failed); evaluates to that
+ * value, or reports clause "fatal-signal" and evaluates to 1 when a signal interrupted it. */
+#define H_GUARDED(_bad, call) do {					\
+	int sig_;							\
+	h_jmp_armed = 1;						\
+	if (0 == (sig_ = sigsetjmp(h_jmp, 1))) {			\
+		(_bad) = (call);					\
+	} else {							\
+		h_crashes ++;						\
+		vh_fail("fatal-signal", "signal %d (%s) inside the case", sig_, strsignal(sig_)); \
+		(_bad) = 1;						\
+		if (h_crashes > 2000) {					\
+			printf("NOTE\tmore than 2000 crashes in one process, giving up\n"); \
+			h_flush_model(0);				\
+			vh_finish();					\
+			_exit(0);					\
+		}							\
+	}								\
+	h_jmp_armed = 0;						\
+} while (0)
 
 #endif /* HCOMMON_H */
